@@ -177,6 +177,7 @@ func runC20(env *lib.Env, rep *lib.Report) {
 	chunks := []int{1, 2, 255, 0}
 	fails := map[string]int{}
 	var n int64
+	var wantOverride []string // set by families that compute the expected statements from the whole typed text
 	check := func(family string, stmts []string, betweens []string, trailing string, chunk int) {
 		n++
 		if int(n%int64(env.NShards)) != env.Shard {
@@ -193,6 +194,9 @@ func runC20(env *lib.Env, rep *lib.Report) {
 		}
 		sb.WriteString(trailing + "\r")
 		input := sb.String()
+		if wantOverride != nil {
+			want = wantOverride
+		}
 		got, err, pan := c20Submit(input, chunk)
 		problem := ""
 		switch {
@@ -302,6 +306,25 @@ func runC20(env *lib.Env, rep *lib.Report) {
 			check(fmt.Sprintf("length/%d/multiline", total), append(append([]string{}, lead...), broken), betw, "", 255)
 		}
 	}
+	// (3b) Enter pressed at every character position of a line of several statements (also inside words and right
+	// after an opening quote: whatever the user does there, every character typed reaches the engine, and a line
+	// break counts as one blank)
+	for _, text := range []string{"USE d;SELECT 'a;b' FROM t;", "a;'x;y';b ;", "INSERT INTO t VALUES ('q');S;\"w;\" ;", "x;yz;"} {
+		for p := 1; p < len(text); p++ {
+			typed := text[:p] + "\r" + text[p:]
+			wantOverride = c20RefSplit(strings.ReplaceAll(typed, "\r", " "))
+			for _, ch := range []int{1, 0} {
+				check("enter-at-every-position", []string{typed}, nil, "", ch)
+			}
+			// and twice: at p and once more two characters later
+			if p+2 < len(text) {
+				typed2 := text[:p] + "\r" + text[p:p+2] + "\r" + text[p+2:]
+				wantOverride = c20RefSplit(strings.ReplaceAll(typed2, "\r", " "))
+				check("enter-at-every-position", []string{typed2}, nil, "", 0)
+			}
+		}
+	}
+	wantOverride = nil
 	// (4) end to end through the real console loop: runTerminal on a pseudo-terminal, a real session
 	// and a real database; what the engine was handed is read back from the database afterwards
 	if env.Shard == 0 {
@@ -311,6 +334,29 @@ func runC20(env *lib.Env, rep *lib.Report) {
 	rep.Bounds["read chunk sizes"] = "1, 2, 255, whole input"
 	rep.Bounds["line breaks"] = "CR (what a raw-mode terminal delivers for Enter and for pasted newlines); bare LF is not a key the terminal knows and is outside the enumeration; bracketed-paste markers are never sent because the console does not enable bracketed paste"
 	rep.Bounds["submissions enumerated (all shards)"] = n
+}
+
+// c20RefSplit is the reference meaning of a typed text (line breaks already replaced by blanks): statements end
+// at semicolons outside quotes; what follows the last one is still pending and not handed over.
+func c20RefSplit(text string) []string {
+	var out []string
+	var cur strings.Builder
+	quote := rune(0)
+	for _, ch := range text {
+		cur.WriteRune(ch)
+		switch {
+		case quote != 0:
+			if ch == quote {
+				quote = 0
+			}
+		case ch == '\'' || ch == '"':
+			quote = ch
+		case ch == ';':
+			out = append(out, strings.TrimSpace(cur.String()))
+			cur.Reset()
+		}
+	}
+	return out
 }
 
 func clip(s string) string {
